@@ -41,6 +41,58 @@ PROPERTY_FUNCTIONS = {
     "C12": ["SyncManager._validate_provider_roots"],
     "C20": ["SmartSyncManager.pre_sync"],
 }
+# beyond the state machine: every method of the pinned inventory (sa/inventory.json) in the modules below belongs to the property of its class, unless listed per function
+_SKIP = re.compile(r"(pretty|__repr__|__str__|_log_debug_state|assert_index_is_correct|oauth|test_instance|test_short_poll_only|insert_event|create_event|__del__|"
+                   r"interrupt_auth|uses_oauth|get_quota|_set_quota|memoize|TemporaryFile|^Exists\.|^Storage\.|^Namespace\.|^EventFilter\.|MockFSObject\.__init__|authenticate|set_creds)")
+_CLASS_PROPERTY = {
+    ("cloudsync.sync.manager", "SyncManager"): "C01", ("cloudsync.sync.manager", "ResolveFile"): "C05",
+    ("cloudsync.sync.state", "SideState"): "C08", ("cloudsync.sync.state", "SyncEntry"): "C01", ("cloudsync.sync.state", "SyncState"): "C11",
+    ("cloudsync.sync.state", "SyncStateLookup"): "C11",
+    ("cloudsync.event", "EventManager"): "C14", ("cloudsync.event", "ProviderGuard"): "C14",
+    ("cloudsync.runnable", "Runnable"): "C18", ("cloudsync.notification", "NotificationManager"): "C18",
+    ("cloudsync.hierarchical_cache", None): "C19", ("cloudsync.providers.mock", None): "C16", ("cloudsync.providers.filesystem", None): "C16",
+    ("cloudsync.provider", "Provider"): "C16", ("cloudsync.cs", "CloudSync"): "C06", ("cloudsync.smartsync", None): "C20",
+    ("cloudsync.sync.sqlite_storage", "SqliteStorage"): "C09",
+}
+_FUNCTION_PROPERTY = {
+    "C02": ["SideState.clear", "SideState.corrupt_exists", "SideState.corrupt_gone", "SideState.is_corrupt", "SideState.uncorrupt", "SyncEntry.ignore", "SyncEntry.unignore",
+            "SyncState.split", "SideState.clean_temp"],
+    "C03": ["SyncState.rename_dir", "SyncState._update_kids"],
+    "C05": ["SyncManager.set_resolver", "SyncManager.__resolve_file_likes"],
+    "C06": ["SyncState.__init__", "SyncState.forget", "SyncState.forget_oid", "SyncState.storage_delete_tag"],
+    "C08": ["SyncEntry.serialize", "SyncEntry.deserialize", "SyncEntry.store", "SyncEntry.mark_dirty", "SyncEntry.__setattr__", "SyncEntry.__setitem__", "SyncEntry.updated",
+            "SyncState.storage_commit", "SyncState.storage_get_data", "SyncState.storage_update_data", "SyncState._storage_update", "SyncState.updated"],
+    "C10": ["EventManager.do", "EventManager._do_unsafe", "EventManager._reconnect_if_needed", "EventManager.__reauth", "SyncManager.done", "SyncManager.__init__"],
+    "C12": ["EventManager._validate_root", "EventManager._notify_on_root_change_event", "Provider.set_root", "Provider.root_oid", "Provider.root_path",
+            "Provider.is_subpath_of_root", "CloudSync.translate"],
+    "C13": ["Provider.join", "Provider.split", "Provider.dirname", "Provider.basename", "Provider.normalize_path", "Provider.normalize_path_separators", "Provider.is_subpath",
+            "Provider.replace_path", "Provider.paths_match", "Provider.__normalize_path_list", "Provider.__strip_path_list"],
+    "C14": ["SyncState.update", "SyncState.lookup_creation", "SyncState.lookup_deletion"],
+    "C17": ["SideState.needs_sync", "SideState.mark_changed", "SideState.set_aged", "SideState.set_force_sync", "SideState._set_mtime", "SyncEntry.punt", "SyncEntry.mark_changed",
+            "SyncState.change", "SyncState.changes", "SyncState._changeset", "SyncState.changeset_len", "SyncState.mark_changed", "CloudSync.prioritize", "CloudSync.aging"],
+    "C18": ["CloudSync.start", "CloudSync.stop", "CloudSync.wait", "CloudSync.done", "CloudSync.do", "CloudSync.busy", "CloudSync.handle_notification", "EventManager.stop",
+            "EventManager.done", "EventManager.busy", "SyncManager._temp_file"],
+}
+
+
+def _fill_from_inventory():
+    from sa.reinline import inventory
+    inv = inventory()
+    taken = {f for fs in PROPERTY_FUNCTIONS.values() for f in fs}
+    for p, fs in _FUNCTION_PROPERTY.items():
+        for q in fs:
+            if q not in taken and any(q in inv.get(m, []) for m in inv):
+                PROPERTY_FUNCTIONS.setdefault(p, []).append(q)
+                taken.add(q)
+    for (mod, cls), p in _CLASS_PROPERTY.items():
+        for q in inv.get(mod, []):
+            if q in taken or _SKIP.search(q) or (cls is not None and q.split(".")[0] != cls):
+                continue
+            PROPERTY_FUNCTIONS.setdefault(p, []).append(q)
+            taken.add(q)
+
+
+_fill_from_inventory()
 DECISION_FUNCTIONS = [f for p in sorted(PROPERTY_FUNCTIONS) for f in PROPERTY_FUNCTIONS[p]]
 # shapes that are bookkeeping of one way of writing a search (a flag set in a loop, a filtering comprehension): decided only while the number of such sites is unchanged
 TOLERANT = ("set ", "filter ")
@@ -56,9 +108,11 @@ class _Norm:
     (SIDE0 = the function's first side base - its side parameter or loop variable -, OTHER0 = its complement, LOCAL / REMOTE for constants), so that
     `sync[synced]`, `sync[OTHER_SIDE[changed]]`, `sync[other]` with `other = other_side(changed)` all read `sync[OTHER0]` - and `sync[changed]` does not."""
 
-    def __init__(self, ctx: Ctx, f):
+    def __init__(self, ctx: Ctx, f, subst: Dict[str, ast.AST] = None):
         from sa.sides import SideAnalysis, canon as scanon
         self.ctx, self.f = ctx, f
+        # a helper read in place: its parameters stand for the (already normalised) argument expressions of the call
+        self.subst = subst or {}
         sa = getattr(ctx, "_decision_sides", None)
         if sa is None:
             sa = ctx._decision_sides = SideAnalysis(ctx)
@@ -85,20 +139,21 @@ class _Norm:
                             self.locdefs.setdefault(e.id, []).append(("=[%d]" % i, n.value, n))
             elif isinstance(n, ast.AugAssign) and isinstance(n.target, ast.Name):
                 self.locdefs.setdefault(n.target.id, []).append(("+=", n.value, n))
-            elif isinstance(n, (ast.For, ast.comprehension)):
+            elif isinstance(n, ast.For):        # comprehension variables have their own scope: they are written ELEM
                 if isinstance(n.target, ast.Name):
-                    self.locdefs.setdefault(n.target.id, []).append(("in", n.iter, n if isinstance(n, ast.For) else None))
+                    self.locdefs.setdefault(n.target.id, []).append(("in", n.iter, n))
                 elif isinstance(n.target, ast.Tuple):
                     for i, e in enumerate(n.target.elts):
                         if isinstance(e, ast.Name):
-                            self.locdefs.setdefault(e.id, []).append(("in[%d]" % i, n.iter, n if isinstance(n, ast.For) else None))
+                            self.locdefs.setdefault(e.id, []).append(("in[%d]" % i, n.iter, n))
             elif isinstance(n, ast.ExceptHandler) and n.name:
                 self.locdefs.setdefault(n.name, []).append(("except", n.type, None))
             elif isinstance(n, ast.withitem) and isinstance(n.optional_vars, ast.Name):
                 self.locdefs.setdefault(n.optional_vars.id, []).append(("with", n.context_expr, None))
         for p in f.all_param_names():
             self.locdefs.pop(p, None)
-        self._def_text: Dict[str, str] = {}
+        self._def_text: Dict = {}
+        self._reaching: Dict = {}
         self.alias = {}
         for k, v in defs.items():
             if len(v) == 1 and v[0] is not None and k not in f.all_param_names():
@@ -108,12 +163,21 @@ class _Norm:
                 if all(isinstance(x, (ast.Attribute, ast.Subscript, ast.Name, ast.Load, ast.Constant)) for x in ast.walk(e0)) and not isinstance(e0, (ast.Name, ast.Constant)) \
                         and not (isinstance(e0, ast.Subscript) and isinstance(e0.value, ast.Name) and e0.value.id == "OTHER_SIDE"):
                     self.alias[k] = e0
-        # names used in a side position, and the bases they resolve to
+        # names used in a side position (index of an entry or of a per-side pair, operand of a complement), and the bases they resolve to
         cand = []
         for n in sorted([x for x in ctx.own_nodes(f) if isinstance(x, (ast.Subscript, ast.Call, ast.BinOp))], key=lambda x: (x.lineno, x.col_offset)):
             e = None
             if isinstance(n, ast.Subscript):
-                e = n.slice
+                if isinstance(n.value, ast.Name) and n.value.id == "OTHER_SIDE":
+                    e = n.slice
+                elif isinstance(n.slice, ast.Name):
+                    try:
+                        ty = ctx.res.type_of(f, n.value)
+                    except Exception:
+                        ty = frozenset()
+                    if any(t[0] == "tup" or (t[0] == "inst" and t[1].endswith(".SyncEntry")) for t in ty) or \
+                            (not ty and n.slice.id in ("side", "changed", "synced", "other", "defer_side", "replace_side", "defer", "replace")):
+                        e = n.slice
             elif isinstance(n, ast.Call) and isinstance(n.func, ast.Name) and n.func.id == "other_side" and len(n.args) == 1:
                 e = n.args[0]
             elif isinstance(n, ast.BinOp) and isinstance(n.op, ast.Sub) and isinstance(n.left, ast.Constant) and n.left.value == 1:
@@ -137,16 +201,19 @@ class _Norm:
             return "LOCAL"
         if sd[0] == "#1":
             return "REMOTE"
+        if sd[0] in self.subst and isinstance(self.subst[sd[0]], ast.Name) and _TOKEN.match(self.subst[sd[0]].id):
+            t = self.subst[sd[0]].id        # the caller's token for this parameter
+            if sd[1]:
+                t = {"LOCAL": "REMOTE", "REMOTE": "LOCAL"}.get(t) or (("OTHER" + t[4:]) if t.startswith("SIDE") else ("SIDE" + t[5:]))
+            return t
         if sd[0] in self.bases:
             return "%s%d" % ("OTHER" if sd[1] else "SIDE", self.bases.index(sd[0]))
         return None
 
-    def def_text(self, name: str, at=None) -> str:
-        """what defines a local where `at` is evaluated (its reaching definitions), as text that does not depend on its name:
-        `info` is `= self.providers[OTHER0].info_oid(?a)`"""
+    def reaching(self, name: str, at=None):
+        """the definitions of a local that reach `at` (all of them when that cannot be told)"""
         key = (name, id(at))
-        if key not in self._def_text:
-            from rules.common import generalise
+        if key not in self._reaching:
             from sa.ctx import reaching_defs
             entries = self.locdefs[name]
             if at is not None and all(e[2] is not None for e in entries) and len(entries) > 1:
@@ -157,33 +224,62 @@ class _Norm:
                 live = [e for e in entries if any(e[2] is d for d in rd)]
                 if live:
                     entries = live
+            self._reaching[key] = entries
+        return self._reaching[key]
+
+    @staticmethod
+    def _opaque(v) -> str:
+        """a value that is described by its kind, not its text: how a flag or a collection is computed is bookkeeping"""
+        if v is None:
+            return ""
+        if isinstance(v, ast.Constant) and isinstance(v.value, bool):
+            return "FLAG"
+        if isinstance(v, ast.Constant):
+            return repr(v.value)
+        if _is_search(v):
+            return "FLAG"
+        if isinstance(v, (ast.ListComp, ast.SetComp, ast.DictComp, ast.GeneratorExp, ast.List, ast.Set, ast.Dict, ast.Tuple, ast.Lambda)) or \
+                (isinstance(v, ast.Call) and isinstance(v.func, ast.Name) and v.func.id in ("list", "set", "dict", "sorted", "tuple")):
+            return "COLLECTION"
+        return ""
+
+    def def_text(self, name: str, at=None) -> str:
+        """what defines a local where `at` is evaluated (its reaching definitions), as text that does not depend on its name:
+        `info` is `= self.providers[OTHER0].info_oid(?a)`"""
+        key = (name, id(at))
+        if key not in self._def_text:
+            from rules.common import generalise
             out = set()
-            for (how, v, _st) in entries:
+            for (how, v, _st) in self.reaching(name, at):
+                op = self._opaque(v)
                 if v is None:
                     out.add(how)
-                elif isinstance(v, ast.Constant) and isinstance(v.value, bool):
-                    out.add("%s FLAG" % how)
-                elif isinstance(v, ast.Constant):
-                    out.add("%s %r" % (how, v.value))
-                elif _is_search(v):
-                    out.add("%s FLAG" % how)
-                elif isinstance(v, (ast.ListComp, ast.SetComp, ast.DictComp, ast.GeneratorExp, ast.List, ast.Set, ast.Dict, ast.Tuple)) or \
-                        (isinstance(v, ast.Call) and isinstance(v.func, ast.Name) and v.func.id in ("list", "set", "dict", "sorted", "tuple", "any", "all")):
-                    out.add("%s COLLECTION" % how if not (isinstance(v, ast.Call) and v.func.id in ("any", "all")) else "%s SEARCH" % how)
+                elif op:
+                    out.add("%s %s" % (how, op))
                 else:
                     out.add("%s %s" % (how, generalise(ast.unparse(self.expr(v, defs=False)))))
             self._def_text[key] = " | ".join(sorted(out)).replace("$", "?")     # `$` would be read as a metavariable by the matcher
         return self._def_text[key]
 
-    def expr(self, e: ast.AST, defs: bool = True, at=None) -> ast.AST:
+    def expr(self, e: ast.AST, defs: bool = True, at=None, depth: int = 0) -> ast.AST:
+        """the expression with aliases expanded, side expressions as role tokens, comprehension variables as ELEM, and (defs=True) every other local replaced by what
+        defines it where `at` is evaluated: its defining expression when there is exactly one plain assignment, a DEF(...) descriptor otherwise"""
         me = self
 
         class U(ast.NodeTransformer):
+            def __init__(self):
+                self.bound = []
+
             def _tok(self, n):
                 t = me.token(n)
                 return ast.copy_location(ast.Name(id=t, ctx=ast.Load()), n) if t else None
 
             def visit_Name(self, n):
+                if any(n.id in b for b in self.bound):
+                    return ast.copy_location(ast.Name(id="ELEM", ctx=ast.Load()), n)
+                if n.id in me.subst and isinstance(n.ctx, ast.Load):
+                    t = self._tok(n) if n.id in me.side_names else None
+                    return t if t is not None else ast.copy_location(ast.parse(ast.unparse(me.subst[n.id]), mode="eval").body, n)
                 if isinstance(n.ctx, ast.Load) and n.id in me.alias:
                     return ast.copy_location(self.visit(ast.parse(ast.unparse(me.alias[n.id]), mode="eval").body), n)
                 if n.id in me.side_names:
@@ -191,8 +287,38 @@ class _Norm:
                     if t is not None:
                         return t
                 if defs and isinstance(n.ctx, ast.Load) and n.id in me.locdefs and n.id not in me.side_names:
-                    return ast.copy_location(ast.Call(func=ast.Name(id="DEF", ctx=ast.Load()), args=[ast.Constant(value=me.def_text(n.id, at))], keywords=[]), n)
+                    ents = me.reaching(n.id, at)
+                    if len(ents) == 1 and ents[0][0] == "=" and ents[0][1] is not None and not me._opaque(ents[0][1]) and depth < 3 \
+                            and not any(isinstance(x, ast.Name) and x.id == n.id for x in ast.walk(ents[0][1])):
+                        return ast.copy_location(me.expr(ents[0][1], defs=True, at=ents[0][2], depth=depth + 1), n)
+                    dt = me.def_text(n.id, at)
+                    if dt == "= COLLECTION" and n is not root:
+                        return ast.copy_location(ast.Name(id="COLLECTION", ctx=ast.Load()), n)      # inside an expression a collection is a collection
+                    return ast.copy_location(ast.Call(func=ast.Name(id="DEF", ctx=ast.Load()), args=[ast.Constant(value=dt)], keywords=[]), n)
                 return n
+
+            def _scoped(self, n):
+                names = set()
+                for g in n.generators:
+                    names |= {x.id for x in ast.walk(g.target) if isinstance(x, ast.Name)}
+                self.bound.append(names)
+                try:
+                    return self.generic_visit(n)
+                finally:
+                    self.bound.pop()
+
+            def _collection(self, n):
+                if getattr(n, "_searched", False):
+                    return self._scoped(n)
+                return ast.copy_location(ast.Name(id="COLLECTION", ctx=ast.Load()), n)      # how a collection is built is bookkeeping (comprehension <-> loop)
+            visit_ListComp = visit_SetComp = visit_DictComp = visit_GeneratorExp = _collection
+
+            def visit_Lambda(self, n):
+                self.bound.append({a.arg for a in n.args.args + n.args.kwonlyargs + n.args.posonlyargs})
+                try:
+                    return self.generic_visit(n)
+                finally:
+                    self.bound.pop()
 
             def visit_Subscript(self, n):
                 if isinstance(n.value, ast.Name) and n.value.id == "OTHER_SIDE":
@@ -202,13 +328,16 @@ class _Norm:
             def visit_Call(self, c):
                 if isinstance(c.func, ast.Name) and c.func.id == "other_side" and len(c.args) == 1:
                     return self._tok(c) or self.generic_visit(c)
+                if isinstance(c.func, ast.Name) and c.func.id in ("any", "all") and c.args:
+                    c.args[0]._searched = True
                 return self.generic_visit(c)
 
             def visit_BinOp(self, b):
                 if isinstance(b.op, ast.Sub) and isinstance(b.left, ast.Constant) and b.left.value == 1:
                     return self._tok(b) or self.generic_visit(b)
                 return self.generic_visit(b)
-        return U().visit(ast.parse(ast.unparse(e), mode="eval").body)
+        root = ast.parse(ast.unparse(e), mode="eval").body
+        return U().visit(root)
 
     def txt(self, txt: str, at=None) -> str:
         try:
@@ -231,32 +360,6 @@ def _norm(ctx: Ctx, f) -> _Norm:
     return cache[f.qname]
 
 
-def expand_facts(ctx: Ctx, f, facts, depth: int = 3, at=None):
-    """facts with boolean locals replaced by the literals of their (single) definition: `x = a and not b; if x:` gives (a, T), (b, F); then normalised (_Norm)."""
-    nm = _norm(ctx, f)
-    defs = nm.defs
-    out = set(facts)
-    for _ in range(depth):
-        new = set()
-        changed = False
-        for (txt, pol) in out:
-            try:
-                e = ast.parse(txt, mode="eval").body
-            except SyntaxError:
-                new.add((txt, pol))
-                continue
-            if isinstance(e, ast.Name) and len(defs.get(e.id, [])) == 1 and isinstance(defs[e.id][0], (ast.BoolOp, ast.Compare, ast.UnaryOp)) \
-                    and not any(isinstance(x, (ast.Call, ast.Await, ast.Yield)) and not _pure_call(x) for x in ast.walk(defs[e.id][0])):
-                new |= literals(defs[e.id][0], pol)
-                changed = True
-            else:
-                new.add((txt, pol))
-        out = new
-        if not changed:
-            break
-    return {(nm.txt(t, at), p) for (t, p) in out}
-
-
 def _pure_call(c) -> bool:
     from sa.defassign import _PURE
     nm = c.func.attr if isinstance(c.func, ast.Attribute) else (c.func.id if isinstance(c.func, ast.Name) else "")
@@ -270,90 +373,286 @@ def _is_log(call: ast.Call) -> bool:
     return isinstance(f, ast.Name) and f.id in ("log", "logging", "print")
 
 
-def decision_sites(ctx: Ctx):
-    """(group key, function, node, facts) for every decision site of DECISION_FUNCTIONS."""
+_NOT_A_SITE = {"list", "set", "dict", "tuple", "sorted", "min", "max", "any", "all", "range", "enumerate", "zip", "str", "int", "bool", "float", "bytes", "repr", "print",
+               "type", "id", "iter", "next", "super", "len", "isinstance", "issubclass", "hasattr", "getattr", "reversed", "filter", "map", "sum", "abs", "round", "frozenset",
+               "open", "cast", "format", "other_side", "debug_sig", "vars", "callable", "hash", "ord", "chr", "divmod"}
+_CONTAINER_METHODS = {"append", "extend", "add", "insert", "update", "sort", "remove", "discard", "pop", "clear", "setdefault", "popleft", "appendleft", "format", "encode",
+                      "decode", "strip", "lstrip", "rstrip", "replace", "hex", "digest", "count", "index", "find", "rfind", "partition", "rpartition", "rsplit", "splitlines",
+                      "isoformat", "total_seconds", "group", "match", "search", "fullmatch", "sub", "casefold", "title"}
+
+
+def _empty_collection(v) -> bool:
+    return (isinstance(v, (ast.Dict, ast.List, ast.Set, ast.Tuple)) and not (getattr(v, "keys", None) or getattr(v, "elts", None))) or \
+        (isinstance(v, ast.Call) and isinstance(v.func, ast.Name) and v.func.id in ("dict", "list", "set", "OrderedDict", "defaultdict") and not v.args and not v.keywords)
+
+
+class _Slots(ast.NodeTransformer):
+    """`d.setdefault(k, {})` read as the slot `d[k]`"""
+    def visit_Call(self, c):
+        self.generic_visit(c)
+        if isinstance(c.func, ast.Attribute) and c.func.attr == "setdefault" and len(c.args) == 2 and _empty_collection(c.args[1]):
+            return ast.copy_location(ast.Subscript(value=c.func.value, slice=c.args[0], ctx=ast.Load()), c)
+        return c
+
+
+def _impure_site(c: ast.Call, nm=None) -> bool:
+    """a call that does something or asks the outside world - not a query of the in-memory state, a constructor, a log line or a container / string method of a local"""
+    if _is_log(c) or _pure_call(c):
+        return False
+    fn = c.func
+    if isinstance(fn, ast.Name):
+        return not (fn.id in _NOT_A_SITE or fn.id[:1].isupper())
+    if isinstance(fn, ast.Attribute):
+        if fn.attr[:1].isupper():
+            return False        # a class of a module: ex.CloudFileNotFoundError(...)
+        if fn.attr == "setdefault" and len(c.args) == 2 and _empty_collection(c.args[1]):
+            return False        # `d.setdefault(k, {})` makes sure the slot exists: the spelling of `if k not in d: d[k] = {}`
+        recv = ast.unparse(fn.value)
+        val = nm.expr(fn.value, defs=False) if nm is not None else fn.value        # a hoisted alias of an attribute is that attribute
+        if fn.attr in _CONTAINER_METHODS and isinstance(val, (ast.Name, ast.Constant, ast.JoinedStr, ast.Call)) and recv != "self":
+            return False        # a method of a local collection / string; `sync[side].clear()`, `self._dirtyset.add(x)` are actions
+        if recv.split(".")[0] in ("os", "time", "hashlib", "msgpack", "logging", "re", "json", "copy", "traceback", "threading", "random", "tempfile", "shutil", "datetime",
+                                   "urllib", "base64", "struct", "itertools", "functools", "sys", "errno", "stat", "math"):
+            return recv.split(".")[0] in ("os", "shutil", "tempfile", "time") and fn.attr not in ("time", "monotonic", "exists", "join", "dirname", "basename", "normpath",
+                                                                                                 "split", "splitext", "isdir", "isfile", "getsize", "fspath", "commonprefix")
+        return True
+    return False
+
+
+def _calls_in(w, e: ast.AST, at, pre):
+    """(call, formula known when it is evaluated beyond the statement's condition) for the impure calls of an expression, respecting short-circuit evaluation;
+    lambdas and comprehension bodies are other scopes / per element and are not walked"""
+    from rules.reachcond import f_and, f_not
     out = []
-    for spec in DECISION_FUNCTIONS:
-        try:
-            f0 = ctx.prog.func(spec)
-        except AnalysisError:
-            continue
-        from sa.util import with_private_helpers
-        from sa.reinline import inventory
-        known = set(inventory().get(f0.module.name, []))
-        fs = [f0] + [h for h in with_private_helpers(ctx, f0)[1:] if h.cls is None or "%s.%s" % (h.cls.name, h.name) not in known]
-        for f in fs:
-            g = ctx.cfg(f)
-            for n in g.nodes:
-                if n.kind != "stmt" or n.ast is None:
-                    continue
-                st = n.ast
-                shapes = []
-                extra = set()
-                if isinstance(st, ast.Return):
-                    v = st.value
-                    if v is None or (isinstance(v, ast.Constant) and v.value is None):
-                        pass        # `return` / `return None` is what falling off the end does: not a site (guard-clause style would add and remove them)
-                    elif isinstance(v, (ast.Constant, ast.Name)) or (isinstance(v, ast.Tuple) and all(isinstance(e, (ast.Constant, ast.Name)) for e in v.elts)):
-                        shapes.append("return " + (_generalise(ast.unparse(v)) if v is not None and not isinstance(v, ast.Constant) else ast.unparse(v) if v is not None else "None"))
-                    elif isinstance(v, ast.Call):
-                        shapes.append("return " + _call_shape(v, _norm(ctx, f), ctx, f))
-                    else:
-                        shapes.append("return <expr>")
-                elif isinstance(st, ast.Expr) and isinstance(st.value, ast.Call) and not _is_log(st.value):
-                    if not (isinstance(st.value.func, ast.Attribute) and st.value.func.attr in ("append", "extend", "add", "insert", "update", "sort", "remove", "discard", "pop")
-                            and not ast.unparse(st.value.func.value).startswith("self")):
-                        shapes.append(_call_shape(st.value, _norm(ctx, f), ctx, f))
-                elif isinstance(st, ast.Continue):
-                    shapes.append("continue")
-                elif isinstance(st, ast.Raise):
-                    shapes.append("raise " + (ast.unparse(st.exc.func) if isinstance(st.exc, ast.Call) else (ast.unparse(st.exc) if st.exc is not None else "")))
-                elif isinstance(st, (ast.Assign, ast.AugAssign)):
-                    tg = st.targets[0] if isinstance(st, ast.Assign) else st.target
-                    if isinstance(tg, ast.Attribute) and tg.attr in ("priority", "ignored", "exists", "changed", "sync_path", "sync_hash", "oid", "path", "hash"):
-                        shapes.append("store %s.%s" % (_generalise(ast.unparse(_norm(ctx, f).expr(tg.value))), tg.attr))
-                    elif isinstance(tg, ast.Subscript) and isinstance(st, ast.Assign) and isinstance(st.value, ast.Subscript):
-                        shapes.append("graft %s" % _generalise("(%s, %s)" % (ast.unparse(_norm(ctx, f).expr(tg)), ast.unparse(_norm(ctx, f).expr(st.value)))))
-                    elif isinstance(st, ast.Assign) and isinstance(st.value, ast.Call) and not _is_log(st.value) and isinstance(st.value.func, ast.Attribute) \
-                            and ast.unparse(st.value.func.value).startswith("self"):
-                        shapes.append("call " + _call_shape(st.value, _norm(ctx, f), ctx, f))
-                    elif isinstance(tg, ast.Name) and isinstance(st, ast.Assign) and isinstance(st.value, ast.Constant) and isinstance(st.value.value, (bool, type(None))):
-                        shapes.append("set $a = %r" % (st.value.value,))
-                    elif isinstance(tg, ast.Name) and isinstance(st, ast.Assign) and isinstance(st.value, ast.Name):
-                        shapes.append("set $a = $b")
-                    elif isinstance(tg, ast.Name) and isinstance(st, ast.AugAssign) and isinstance(st.value, ast.Constant):
-                        shapes.append("set $a %s= %r" % (type(st.op).__name__, st.value.value))
-                    elif isinstance(tg, ast.Name) and isinstance(st, ast.Assign) and _filters(st.value):
-                        shapes.append("filter $a")
-                        extra = {("KEPT(%s)" % t, p) for cnd in _filters(st.value) for (t, p) in literals(cnd, True)}
-                # `x.a = p if c else q` is `if c: x.a = p` / `else: x.a = q`
-                arms = [extra]
-                if isinstance(st, ast.Assign) and isinstance(st.value, ast.IfExp) and shapes and shapes[0].startswith("store "):
-                    arms = [extra | literals(st.value.test, True), extra | literals(st.value.test, False)]
-                for sh in shapes:
-                    if not ctx.facts(f).reachable(n):
-                        continue
-                    for arm in arms:
-                        facts = expand_facts(ctx, f, set(ctx.facts(f).facts(n) if f is f0 else ctx.facts_inlined(f, st)) | arm | _handler_facts(f, st), at=st)
-                        out.append(("%s|%s" % (spec, sh), f, st, _conjunctive(facts)))
+    if e is None or isinstance(e, ast.Lambda):
+        return out
+    if isinstance(e, (ast.ListComp, ast.SetComp, ast.DictComp, ast.GeneratorExp)):
+        # what a comprehension calls per element is reached whenever the comprehension is (as the body of a loop is)
+        for g in e.generators:
+            out += _calls_in(w, g.iter, at, pre)
+            for c in g.ifs:
+                out += _calls_in(w, c, at, pre)
+        for part in ([e.key, e.value] if isinstance(e, ast.DictComp) else [e.elt]):
+            out += _calls_in(w, part, at, pre)
+        return out
+    if isinstance(e, ast.Call) and isinstance(e.func, ast.Name) and e.func.id == "map" and len(e.args) == 2 and isinstance(e.args[0], ast.Attribute):
+        # map(self.f, xs) calls self.f(x) per element
+        call = ast.copy_location(ast.Call(func=e.args[0], args=[ast.Name(id="ELEM", ctx=ast.Load())], keywords=[]), e)
+        out += _calls_in(w, e.args[1], at, pre)
+        if _impure_site(call, w.nm):
+            out.append((call, pre))
+        return out
+    if isinstance(e, ast.BoolOp):
+        cur = pre
+        for v in e.values:
+            out += _calls_in(w, v, at, cur)
+            c = w.formula(v, at)
+            cur = f_and(cur, c if isinstance(e.op, ast.And) else f_not(c))
+        return out
+    if isinstance(e, ast.Call) and _is_log(e):
+        return out          # what a log line evaluates is not an action
+    if isinstance(e, ast.IfExp):
+        out += _calls_in(w, e.test, at, pre)
+        c = w.formula(e.test, at)
+        out += _calls_in(w, e.body, at, f_and(pre, c))
+        out += _calls_in(w, e.orelse, at, f_and(pre, f_not(c)))
+        return out
+    for ch in ast.iter_child_nodes(e):
+        if isinstance(ch, ast.AST) and not isinstance(ch, (ast.stmt, ast.expr_context, ast.operator, ast.boolop, ast.unaryop, ast.cmpop)):
+            out += _calls_in(w, ch, at, pre)
+    if isinstance(e, ast.Call) and _impure_site(e, w.nm):
+        out.append((e, pre))
     return out
+
+
+def _functions_of(ctx: Ctx, spec: str):
+    try:
+        return [ctx.prog.func(spec)]
+    except AnalysisError:
+        return []
+
+
+def _return_sites(w, v, at, pre):
+    """(shape, formula) of a returned / yielded value; the arms of a conditional expression are separate sites"""
+    from rules.reachcond import f_and, f_not
+    if v is None or (isinstance(v, ast.Constant) and v.value is None):
+        return []       # `return` / `return None` is what falling off the end does: not a site (guard-clause style would add and remove them)
+    if isinstance(v, ast.IfExp):
+        c = w.formula(v.test, at)
+        return _return_sites(w, v.body, at, f_and(pre, c)) + _return_sites(w, v.orelse, at, f_and(pre, f_not(c)))
+    if isinstance(v, ast.Name) and v.id in w.nm.locdefs and v.id not in w.nm.side_names:
+        ents = w.nm.reaching(v.id, at)
+        if len(ents) == 1 and ents[0][0] == "=" and ents[0][1] is not None and _constant_like(ents[0][1]):
+            return [(ast.unparse(ents[0][1]), pre)]
+    if _constant_like(v):
+        return [(ast.unparse(v), pre)]
+    return [("<expr>", pre)]        # which local carries the value is spelling: `x = f(); return x` is `return f()`
+
+
+def _sites_of(w, node, at):
+    """(shape, extra formula) of the action sites of one statement / test / iterable / context expression"""
+    from rules.reachcond import TRUE, f_and, f_not
+    ctx, f, nm = w.ctx, w.f, w.nm
+    out = []
+    if isinstance(node, ast.Pass):
+        return out
+    if isinstance(node, ast.stmt):
+        parts = [x for x in ast.iter_child_nodes(node) if isinstance(x, (ast.expr, ast.keyword))]
+    else:
+        parts = [node]
+    for p in parts:
+        for (c, pre) in _calls_in(w, p, at, TRUE):
+            if id(c) in w.skip_calls:
+                continue
+            out.append((_call_shape(c, w.nm, ctx, w.f), pre))
+    st = node
+    if not isinstance(st, ast.stmt):
+        return out
+    if isinstance(st, ast.Return):
+        out += [("return " + sh, pre) for (sh, pre) in _return_sites(w, st.value, at, TRUE)]
+    elif isinstance(st, ast.Expr) and isinstance(st.value, (ast.Yield, ast.YieldFrom)):
+        out += [("yield " + sh, pre) for (sh, pre) in (_return_sites(w, st.value.value, at, TRUE) or [("None", TRUE)])]
+    elif isinstance(st, ast.Raise):
+        out.append(("raise " + (ast.unparse(st.exc.func) if isinstance(st.exc, ast.Call) else ("$a" if isinstance(st.exc, ast.Name) and not st.exc.id[:1].isupper() else
+                                                                                                (ast.unparse(st.exc) if st.exc is not None else ""))), TRUE))
+    elif isinstance(st, ast.Delete):
+        for tg in st.targets:
+            if not isinstance(tg, ast.Name):
+                out.append(("del " + _generalise(ast.unparse(nm.expr(tg, defs=False))), TRUE))
+    elif isinstance(st, (ast.Assign, ast.AugAssign, ast.AnnAssign)) and getattr(st, "value", None) is not None:
+        tgs = st.targets if isinstance(st, ast.Assign) else [st.target]
+        flat = []
+        for tg in tgs:
+            flat += list(tg.elts) if isinstance(tg, (ast.Tuple, ast.List)) else [tg]
+        for tg in flat:
+            shape = None
+            if isinstance(tg, ast.Attribute):
+                shape = "store %s.%s" % (_generalise(ast.unparse(nm.expr(tg.value, defs=False))), tg.attr)
+            elif isinstance(tg, ast.Subscript) and isinstance(st, ast.Assign) and isinstance(nm.expr(st.value, at=st), ast.Subscript):
+                shape = "graft %s" % _generalise("(%s, %s)" % (ast.unparse(nm.expr(tg, defs=False)), ast.unparse(nm.expr(nm.expr(st.value, at=st), defs=False))))
+            elif isinstance(tg, ast.Subscript) and _empty_collection(st.value):
+                shape = None        # making sure a slot exists (`if k not in d: d[k] = {}`) is bookkeeping, like setdefault
+            elif isinstance(tg, ast.Subscript):
+                shape = "setitem %s" % _generalise(ast.unparse(nm.expr(_Slots().visit(ast.parse(ast.unparse(tg), mode="eval").body), defs=False)))
+            elif isinstance(tg, ast.Name) and isinstance(st, ast.Assign) and isinstance(st.value, ast.Constant) and isinstance(st.value.value, (bool, type(None))):
+                shape = "set $a = %r" % (st.value.value,)
+            elif isinstance(tg, ast.Name) and isinstance(st, ast.Assign) and isinstance(st.value, ast.Name) and len(flat) == 1:
+                shape = "set $a = $b"
+            elif isinstance(tg, ast.Name) and isinstance(st, ast.AugAssign) and isinstance(st.value, ast.Constant):
+                shape = "set $a %s= %r" % (type(st.op).__name__, st.value.value)
+            elif isinstance(tg, ast.Name) and isinstance(st, ast.Assign) and _filters(st.value) and len(flat) == 1:
+                kept = TRUE
+                for (t, p) in sorted(_filter_facts(st.value)):
+                    a_ = w.atom(nm.txt(t, st), st)
+                    kept = f_and(kept, a_ if p else f_not(a_))
+                out.append(("filter $a", kept))
+            if shape is not None:
+                # `x.a = p if c else q` is `if c: x.a = p` / `else: x.a = q`: the same store either way - one site
+                out.append((shape, TRUE))
+    return out
+
+
+def _single_caller(ctx: Ctx, h) -> bool:
+    """a private method with exactly one call site in the program, in a method of its own class hierarchy: the product (or the target) of extract / inline method"""
+    if h.cls is None or not h.name.startswith("_") or h.name.endswith("__"):
+        return False
+    cache = ctx.__dict__.setdefault("_decision_single", {})
+    if h.qname not in cache:
+        ok = ctx.helper_of(h) is not None and not any(True for c in ctx.prog.functions.values() if c is not h and c.name == h.name and c.cls is not None
+                                                      and c.cls is not h.cls and (h.cls in getattr(c.cls, "mro", []) or c.cls in getattr(h.cls, "mro", [])))
+        if ok:
+            # no other mention of the method (a reference handed to map(), a callback registration) anywhere in its module
+            bare = h.name if not h.name.startswith("__") else None
+            refs = sum(1 for x in ast.walk(h.module.tree) if isinstance(x, ast.Attribute) and (x.attr == h.name or (bare is None and x.attr.endswith(h.name))))
+            ok = refs <= 1
+        cache[h.qname] = ok
+    return cache[h.qname]
+
+
+def _helper_norm(ctx: Ctx, w, h, call: ast.Call):
+    """normaliser of a helper read in place: parameters bound to the caller's normalised arguments"""
+    a = h.node.args
+    params = [x.arg for x in list(a.posonlyargs) + list(a.args)]
+    if params and params[0] in ("self", "cls"):
+        params = params[1:]
+    subst = {}
+    for i, x in enumerate(call.args):
+        if i < len(params) and not isinstance(x, ast.Starred):
+            subst[params[i]] = w.nm.expr(x, at=None)
+    for k in call.keywords:
+        if k.arg:
+            subst[k.arg] = w.nm.expr(k.value, at=None)
+    return _Norm(ctx, h, subst)
+
+
+def _new_helper(ctx: Ctx, g, call: ast.Call):
+    """the private method a `self._x(...)` call runs, when it is not a function of the pinned inventory (an extracted method, possibly shared by several callers)"""
+    from sa.reinline import inventory
+    fn = call.func
+    if not (isinstance(fn, ast.Attribute) and isinstance(fn.value, ast.Name) and fn.value.id == getattr(g, "self_name", "self") and fn.attr.startswith("_")
+            and not fn.attr.endswith("__")) or g.cls is None:
+        return None
+    h = g.cls.lookup(fn.attr)
+    if h is None or h.cls is None or isinstance(h.node, ast.Lambda):
+        return None
+    name = fn.attr
+    if "%s.%s" % (h.cls.name, h.name) in inventory().get(h.module.name, []) and not _single_caller(ctx, h):
+        return None
+    return h
+
+
+def function_shapes(ctx: Ctx, spec: str):
+    """shape -> (generalised atoms, diagram text, raw atoms, diagram, statements) for one function of the table, or None when the function is gone"""
+    from rules.reachcond import Walker, shape_functions
+    fs = _functions_of(ctx, spec)
+    if not fs:
+        return None
+    f = fs[0]
+    w = Walker(ctx, f, _norm(ctx, f), _sites_of, helper_fn=lambda g, call: _new_helper(ctx, g, call), norm_fn=None)
+    w.norm_fn = lambda h, call: _helper_norm(ctx, w, h, call)
+    w.run()
+    return f, shape_functions(w)
 
 
 _TOKEN = re.compile(r"^(SIDE\d+|OTHER\d+|LOCAL|REMOTE)$")
 
 
-def _bound(ctx: Ctx, f, c0: ast.Call):
-    """parameter names the call's arguments bind in the callee (positional or keyword alike), when the callee is resolved"""
-    site = ctx.site_of(f, c0, "call") if ctx is not None else None
-    cal = (site.under or site.over) if site is not None else []
-    if not cal:
-        return None
-    cal = sorted(cal, key=lambda g: (not g.qname.endswith("Provider.%s" % g.name), g.qname))[0]
-    a = cal.node.args
+def _params(g):
+    a = g.node.args
     pos = [x.arg for x in list(a.posonlyargs) + list(a.args) + list(a.kwonlyargs)]
-    if pos and pos[0] in ("self", "cls"):
-        pos = pos[1:]
-    return pos
+    return tuple(pos[1:] if pos and pos[0] in ("self", "cls") and g.cls is not None else pos)
+
+
+def _bound(ctx: Ctx, f, c0: ast.Call):
+    """positional parameter names of the callee, found by the method's name (all analysed functions of that name agree on them, or the receiver's class decides);
+    None when the callee is not known - the shape then lists what the call site itself shows"""
+    fn = c0.func
+    name = fn.attr if isinstance(fn, ast.Attribute) else (fn.id if isinstance(fn, ast.Name) else None)
+    if name is None:
+        return None
+    idx = ctx.__dict__.setdefault("_decision_by_name", None)
+    if idx is None:
+        idx = ctx.__dict__["_decision_by_name"] = {}
+        for g in ctx.prog.functions.values():
+            if isinstance(g.node, ast.Lambda):
+                continue
+            idx.setdefault(g.name, []).append(g)
+    cands = idx.get(name, [])
+    if isinstance(fn, ast.Attribute) and len({_params(g) for g in cands}) > 1:
+        # several signatures under this name: the receiver's inferred class decides
+        try:
+            ty = ctx.res.type_of(f, fn.value)
+        except Exception:
+            ty = frozenset()
+        classes = {t[1].split(".")[-1] for t in ty if t[0] == "inst"}
+        pick = [g for g in cands if g.cls is not None and (g.cls.name in classes or any(ctx.is_subclass_name(c, g.cls.name) for c in classes))]
+        if pick:
+            cands = pick
+
+    sigs = {_params(g) for g in cands}
+    if len(sigs) == 1:
+        return list(sigs.pop())
+    return None
 
 
 def _call_shape(c: ast.Call, nm: "_Norm" = None, ctx: Ctx = None, f=None) -> str:
@@ -362,6 +661,8 @@ def _call_shape(c: ast.Call, nm: "_Norm" = None, ctx: Ctx = None, f=None) -> str
     pos = _bound(ctx, f, c) if f is not None else None
     if nm is not None:
         c = nm.expr(c)
+    if not isinstance(c, ast.Call):
+        return ast.unparse(c)
     fn = c.func
 
     def val(v):
@@ -385,51 +686,16 @@ def _call_shape(c: ast.Call, nm: "_Norm" = None, ctx: Ctx = None, f=None) -> str
     return "%s(%s)" % (ast.unparse(fn), ", ".join(sides))
 
 
-def _conjunctive(facts):
-    """facts with the disjunctive ones rewritten as `ANY(d1, d2, ...)` (disjuncts in a name-independent order) and `X in (a, b)` as the disjunction it is.
-    After `if a: if b: return` nothing is known, after `if a and b: return` the literal `not a or not b` is: the comparison (`_same_condition`) therefore
-    treats ANY facts as optional and only objects when a site has both an ANY fact the table lacks and lacks one the table has - a changed disjunction."""
-    from sa.guards import nnf
-    from sa.canon import canon_text
-    from rules.common import generalise
-    out = set()
-    for (t, p) in facts:
-        try:
-            e = ast.parse(t, mode="eval").body
-        except SyntaxError:
-            out.add((t, p))
-            continue
-        if isinstance(e, ast.Compare) and len(e.ops) == 1 and isinstance(e.ops[0], (ast.In, ast.NotIn)) and isinstance(e.comparators[0], (ast.Tuple, ast.List, ast.Set)) \
-                and 1 < len(e.comparators[0].elts) <= 4:
-            eqs = [canon_text("%s == %s" % (ast.unparse(el), ast.unparse(e.left))) for el in e.comparators[0].elts]
-            if isinstance(e.ops[0], ast.In) == p:
-                out.add(("ANY(%s)" % ", ".join(sorted(eqs, key=lambda x: (generalise(x), x))), True))
-            else:
-                for q in eqs:
-                    out.add((q, False))
-            continue
-        if isinstance(e, ast.BoolOp):
-            n = nnf(e, p)
-            if isinstance(n, ast.BoolOp) and isinstance(n.op, ast.Or):
-                ds = [ast.unparse(v) for v in n.values]
-                out.add(("ANY(%s)" % ", ".join(sorted(ds, key=lambda x: (generalise(x), x))), True))
-                continue
-        out.add((t, p))
-    return out
-
-
-def _same_condition(facts, cond):
-    """(extra, missing) between a site's facts and a table condition; ANY facts only count when they disagree both ways"""
-    from rules.common import _match_condition
-    fc = [x for x in facts if not x[0].startswith("ANY(")]
-    fd = [x for x in facts if x[0].startswith("ANY(")]
-    cc = [x for x in cond if not x[0].startswith("ANY(")]
-    cd = [x for x in cond if x[0].startswith("ANY(")]
-    extra, missing = _match_condition(fc, cc)
-    ex_d, mi_d = _match_condition(fd, cd)
-    if ex_d and mi_d:
-        extra, missing = list(extra) + list(ex_d), list(missing) + list(mi_d)
-    return extra, missing
+def _constant_like(v) -> bool:
+    if isinstance(v, ast.Constant):
+        return True
+    if isinstance(v, ast.Name):
+        return v.id.isupper()
+    if isinstance(v, ast.Attribute):
+        return v.attr.isupper() and isinstance(v.value, ast.Name) and v.value.id[:1].isupper()
+    if isinstance(v, ast.Tuple):
+        return all(_constant_like(e) for e in v.elts)
+    return False
 
 
 def _filters(v: ast.AST):
@@ -441,13 +707,21 @@ def _filters(v: ast.AST):
     return []
 
 
-def _handler_facts(f, st):
-    """(`except <types>`, True) for every handler the statement is inside of"""
-    cache = f.__dict__.setdefault("_decision_handlers", None) if hasattr(f, "__dict__") else None
+def _filter_facts(v: ast.AST):
+    """KEPT(cond) facts of a filtering comprehension, its own variables written ELEM"""
+    comp = v.args[0] if isinstance(v, ast.Call) else v
+    names = set()
+    for g in comp.generators:
+        names |= {x.id for x in ast.walk(g.target) if isinstance(x, ast.Name)}
+
+    class R(ast.NodeTransformer):
+        def visit_Name(self, n):
+            return ast.copy_location(ast.Name(id="ELEM", ctx=n.ctx), n) if n.id in names else n
     out = set()
-    for h in ast.walk(f.node):
-        if isinstance(h, ast.ExceptHandler) and any(x is st for b in h.body for x in ast.walk(b)):
-            out.add(("EXCEPT(%r)" % (ast.unparse(h.type) if h.type is not None else "BaseException"), True))
+    for cnd in _filters(v):
+        c2 = R().visit(ast.parse(ast.unparse(cnd), mode="eval").body)
+        for (t, p) in literals(c2, True):
+            out.add(("KEPT(%s)" % t, p))
     return out
 
 
@@ -456,64 +730,91 @@ def table_path():
 
 
 def build_table(ctx: Ctx):
-    from rules.common import generalise
-    t: Dict[str, List] = {}
-    for key, f, st, facts in decision_sites(ctx):
-        t.setdefault(key, []).append(sorted([generalise(x), p] for (x, p) in facts))
-    for k in t:
-        t[k].sort()
+    t: Dict[str, Dict] = {}
+    for spec in DECISION_FUNCTIONS:
+        r = function_shapes(ctx, spec)
+        if r is None:
+            continue
+        if not any(gen for (gen, _t, _r, _d, _s) in r[1].values()):
+            continue        # a function without a guard decides nothing: which calls it makes is not pinned here (wrappers are inlined, renamed, re-routed freely)
+        helper = _single_caller(ctx, r[0])
+        for shape, (gen, dtext, _raw, _d, _sts) in r[1].items():
+            t["%s|%s" % (spec, shape)] = {"atoms": gen, "when": dtext}
+            if helper:
+                t["%s|%s" % (spec, shape)]["helper"] = True      # also read as part of its only caller: inlining it there is not a change
     return t
 
 
-def table_sites(prop: str) -> int:
-    """number of sites of the committed table that the property's rule must decide (the tolerant bookkeeping shapes are not counted)"""
+def table_sites(prop: str = None, shapes: str = None) -> int:
+    """number of (function, shape) reach conditions of the committed table that a rule must decide (the tolerant bookkeeping shapes are not counted)"""
     table = json.load(open(table_path()))
-    fns = set(PROPERTY_FUNCTIONS[prop])
-    return sum(len(v) for k, v in table.items() if k.split("|")[0] in fns and not k.split("|", 1)[1].startswith(TOLERANT))
+    fns = set(PROPERTY_FUNCTIONS[prop]) if prop else None
+    return sum(1 for k, v in table.items() if (fns is None or k.split("|")[0] in fns) and not k.split("|", 1)[1].startswith(TOLERANT)
+               and (shapes is None or re.search(shapes, k.split("|", 1)[1])) and not v.get("helper"))
 
 
-def decision_table(ctx: Ctx, rep: Report, rid: str, functions=None):
-    """Every decision site of the state machine is reached under one of the path conditions the table records for (function, site shape)."""
+def _state(atoms, asg) -> str:
+    return ", ".join("%s%s" % ("" if v else "not ", atoms[i]) for i, v in sorted(asg.items())) or "any state"
+
+
+def decision_table(ctx: Ctx, rep: Report, rid: str, functions=None, shapes: str = None):
+    """For every function of the table and every action shape: the set of states (over the guard atoms) in which the function takes that action is the recorded one.
+    `functions`: a property id (its functions), a list of function specs, or None for the whole table; `shapes`: a regular expression that selects action shapes."""
+    from rules.reachcond import parse_diagram, difference
     if isinstance(functions, str):
         functions = PROPERTY_FUNCTIONS[functions]
-    from rules.common import _match_condition
     table = json.load(open(table_path()))
-    groups: Dict[str, List] = {}
-    for key, f, st, facts in decision_sites(ctx):
-        if functions is not None and key.split("|")[0] not in functions:
+    if shapes is not None:
+        table = {k: v for k, v in table.items() if re.search(shapes, k.split("|", 1)[1])}
+    specs = DECISION_FUNCTIONS if functions is None else functions
+    n = want = 0
+    for spec in specs:
+        keys = {k: v for k, v in table.items() if k.split("|")[0] == spec}
+        want += sum(1 for k in keys if not k.split("|", 1)[1].startswith(TOLERANT))
+        if not keys and (shapes is not None or not any(k.split("|")[0] == spec for k in table)):
             continue
-        groups.setdefault(key, []).append((f, st, facts))
-    n = 0
-    for key in sorted(set(groups) | {k for k in table if functions is None or k.split("|")[0] in functions}):
-        sites = groups.get(key, [])
-        conds = [[(t, p) for (t, p) in c] for c in table.get(key, [])]
-        if key.split("|", 1)[1].startswith(TOLERANT) and len(sites) != len(conds):
-            continue        # the search was rewritten (flag loop <-> any(), comprehension <-> loop): its bookkeeping sites are not comparable
-        if not conds:
-            for (f, st, facts) in sites:
-                rep.violation(rid, key, ctx.line(f, st), "`%s` in %s is a decision site the table does not have (reached under %s)" % (ast.unparse(st).split("\n")[0][:60], f.name, sorted(facts)), func=f.qname)
-            continue
-        if not sites:
-            rep.violation(rid, key, "-", "the %d decision site(s) `%s` of the table are gone from the current tree" % (len(conds), key))
-            continue
-        free = list(range(len(conds)))
-        pending = []
-        for (f, st, facts) in sites:
-            hit = [j for j in free if _same_condition(facts, conds[j]) == ([], [])]
-            if hit:
-                free.remove(hit[0])
-                n += 1
-                rep.ok(rid, "%s@%d" % (key, hit[0] + 1), ctx.line(f, st), "under %s" % (sorted(facts) or "no condition"), nontrivial=bool(facts), func=f.qname)
+        r = function_shapes(ctx, spec)
+        if r is None:
+            if keys and not all(v.get("helper") for v in keys.values()):
+                rep.violation(rid, spec, "-", "the function %s of the decision table is gone from the current tree (%d action shapes)" % (spec, len(keys)))
             else:
-                pending.append((f, st, facts))
-        for (f, st, facts) in pending:
-            cand = [conds[j] for j in free] or conds
-            best = min(cand, key=lambda w: sum(len(x) for x in _same_condition(facts, w)))
-            extra, missing = _same_condition(facts, best)
-            rep.violation(rid, key, ctx.line(f, st), "`%s` in %s is reached under %s; the table's closest condition for this site is %s (extra: %s, missing: %s) - the state "
-                          "machine takes this action in a different set of states" % (ast.unparse(st).split("\n")[0][:60], f.name, sorted(facts), best, extra, missing), func=f.qname)
-        if free and not pending:
-            rep.violation(rid, key, sites[0][0], "%d of the %d sites `%s` of the table are gone from the current tree" % (len(free), len(conds), key))
-    want = sum(len(v) for k, v in table.items() if functions is None or k.split("|")[0] in functions)
+                want -= sum(1 for k in keys if not k.split("|", 1)[1].startswith(TOLERANT))      # a single-caller helper inlined into its caller: decided there
+            continue
+        f, found = r
+        if shapes is not None:
+            found = {k: v for k, v in found.items() if re.search(shapes, k)}
+        for shape in sorted(set(found) | {k.split("|", 1)[1] for k in keys}):
+            key = "%s|%s" % (spec, shape)
+            cur, old = found.get(shape), keys.get(key)
+            tolerant = shape.startswith(TOLERANT)
+            if cur is None or old is None:
+                if tolerant:
+                    continue        # the search was rewritten (flag loop <-> any(), comprehension <-> loop): its bookkeeping is not comparable
+                if cur is None:
+                    rep.violation(rid, key, "%s:%d" % (f.module.relpath, f.node.lineno), "%s no longer takes the action `%s` anywhere (the table has it when %s)"
+                                  % (f.name, shape, old["when"] if old["atoms"] else "always"), func=f.qname)
+                else:
+                    st = cur[4][0]
+                    rep.violation(rid, key, ctx.line(f, st), "`%s` in %s is an action the decision table does not have for this function (shape `%s`, taken when: %s over %s)"
+                                  % (ast.unparse(st).split("\n")[0][:70], f.name, shape, cur[1], cur[0]), func=f.qname)
+                continue
+            gen, dtext, raw, d, sts = cur
+            if gen == old["atoms"] and dtext == old["when"]:
+                if not tolerant:
+                    n += 1
+                rep.ok(rid, key, ctx.line(f, sts[0]), "taken exactly when %s over %s" % (dtext, gen or "no guard"), nontrivial=bool(gen), func=f.qname)
+                continue
+            if tolerant and len(gen) != len(old["atoms"]):
+                continue
+            if gen == old["atoms"]:
+                asg, val = difference(d, parse_diagram(old["when"]), len(gen))
+                why = "in the state [%s] the action is %s taken, the table says the opposite" % (_state(raw, asg), "now" if val else "no longer")
+            else:
+                more = [a for a in gen if a not in old["atoms"]]
+                less = [a for a in old["atoms"] if a not in gen]
+                why = "it now depends on %s and no longer on %s (table: %s over %s; now: %s over %s)" % (more or "nothing new", less or "everything it did", old["when"],
+                                                                                                       old["atoms"], dtext, gen)
+            rep.violation(rid, key, ctx.line(f, sts[0]), "%s takes the action `%s` in a different set of states than the decision table records: %s" % (f.name, shape, why),
+                          func=f.qname)
     if n * 2 < want or not want:
-        raise AnalysisError("only %d of the table's %d decision sites matched - the decision functions were not found" % (n, want))
+        raise AnalysisError("only %d of the table's %d reach conditions matched - the decision functions were not found" % (n, want))
